@@ -4,6 +4,7 @@ import CookModel.Lemmas.LexLaws
 import CookModel.Lemmas.Roundtrip
 import CookModel.Lemmas.RoundtripQty
 import CookModel.Lemmas.RoundtripComp
+import CookModel.Lemmas.RoundtripStep
 /-
   C01  Printing a recipe as Cooklang and parsing it returns that recipe.
 
@@ -385,5 +386,38 @@ def C01_exPanL : AComp :=
     qty := some { val := .num (.int ['2']), unit := some [tk .word ['l']] } }
 example : C01_exPot.wfCookware toyCharSpec C01_allExt = true := by decide
 example : C01_exPanL.wfCookware toyCharSpec C01_allExt = false := by decide
+
+/-! ### the step layer: one event per segment -/
+
+/-- Step composition.  A step block whose tokens are the concatenation of segments, each a text
+    run (non-empty, no `@ # ~`, showing at least one character — a lone newline between two
+    components counts, it shows as one space) or an ingredient / cookware spelling of the
+    component layer, where two text runs never touch (they would be one run) and a component
+    without note is not followed by `(` (`segsOK`, decidable), is parsed by `parse_step` to:
+    `start step`, then exactly one event per segment in order — a text event whose characters are
+    the visible characters of the run (`buildText_text`), an ingredient / cookware event matching
+    the intended component (`IngrMatches` / `CwMatches`) — then `stop step`, and NOTHING else: no
+    error, no warning; no panic; the cursor at the end of the block.
+    Partial: timers and single-word components (without braces) are not among the segments;
+    the block-level layers (splitter, metadata, sections) and the analysis pass are not covered. -/
+theorem C01_step_compose_partial {α : Type} [Arith α] (segs : List Seg) (s : BP α) (ts : List Tok)
+    (hs : Spells ts (segs.flatMap Seg.spell)) (ht : s.toks = ts) (hc : s.cur = 0)
+    (hrun : RunAt (baseOff ts) ts) (hok : segsOK s.cs s.ext segs = true) :
+    ∃ (evs : List (Ev α)) (arr : Array (Ev α)),
+      parseStep s = ((), { s with cur := ts.length, evs := arr }) ∧
+      arr.toList = s.evs.toList ++ [.start .step] ++ evs ++ [.stop .step] ∧ SegsEvs s.cs segs evs :=
+  rt_parseStep segs s ts hs ht hc hrun hok
+
+/-- example: `Fry the @-?olive oil |EVOO {…}(cold pressed)⏎#-large pot{2} gently.` -/
+def C01_exStep : List Seg :=
+  [.text [tk .word "Fry".toList, tk .ws [' '], tk .word "the".toList, tk .ws [' ']],
+   .ingredient C01_exComp C01_exCPad,
+   .text [tk .newline ['\n']],
+   .cookware C01_exPot {},
+   .text [tk .ws [' '], tk .word "gently".toList, tk .dot ['.']]]
+example : segsOK toyCharSpec C01_allExt C01_exStep = true := by decide
+/-- two touching text runs, or `(` right after a component without note, are rejected -/
+example : segsOK toyCharSpec C01_allExt [.text [tk .word ['a']], .text [tk .ws [' ']]] = false := by decide
+example : segsOK toyCharSpec C01_allExt [.cookware C01_exPot {}, .text [tk .openParen ['(']]] = false := by decide
 
 end Cook
